@@ -551,6 +551,10 @@ func c18(c *core.Ctx) {
 		c.Note("slice fields of TxPool indexed in step with txs: %d", len(parallel))
 	})
 
+	c.Clause("C18.7", "known means indexed, and the guard outlives the fix-up: isTxExist (with its private helpers) reads the index and not the slot list; in saveNewBlock and InsertConfirms nothing that leads to TxGuard.DelOldBlocks can still be followed by the fork update")
+	c.Run("exist-from-index-only", func() { c18ExistFromIndexOnly(c) })
+	c.Run("guard-expiry-after-pool-fixup", func() { c18GuardExpiryAfterPoolFixup(c) })
+
 	c.NotDecidedf("set semantics under interleavings (linearizability of AddTx/GetTxs/DelTxs), loss of sibling sub-txs when one sub-tx is deleted (documented in the code), capacity arithmetic")
 }
 
